@@ -33,7 +33,7 @@ def main():
     rc, out = sh("git -C /repo apply %s" % patch)
     try:
         for pid in pids:
-            rc, out = sh("VERIF_SKIP_COQ=1 /verif/check %s" % pid, cwd="/verif", timeout=3000)
+            rc, out = sh(("" if os.environ.get("MUTEST_FULL") else "VERIF_SKIP_COQ=1 ") + "/verif/check %s" % pid, cwd="/verif", timeout=3000)
             viol = [l for l in out.split("\n") if l.startswith("VIOLATION") or l.startswith("KNOWN")]
             last = out.strip().split("\n")[-1]
             res["checks"][pid] = dict(exit=rc, violations=viol[:4], summary=last[-300:])
